@@ -183,7 +183,7 @@ class Source:
             while b_end > a and self.text[b_end - 1] in " \t\n":
                 b_end -= 1
         else:
-            b = self._find_line(last, a, body_hi, 0)
+            b = self._find_line(last, self.text.rfind("\n", 0, a) + 1, body_hi, 0)
             b_end = self._stmt_end(b, body_hi)
         ls = self.text.rfind("\n", 0, a) + 1
         return self.text[ls:b_end], (self.line_of(a), self.line_of(b_end - 1))
